@@ -29,8 +29,8 @@ LEVEL_TEXT = ('Kernel-checked theorems, for all tables/arguments/options/convers
               'BulkAddOrUpdateRecord (lookup on the pre-call table, on_many, add/update flags, allow_empty_require, '
               'accumulated BulkAddRecord + trimmed BulkUpdateRecord, returned id lists) equals a per-row reference '
               'specification, the four argument errors reject without change, and AddOrUpdateRecord agrees with its '
-              'reference; the two situations in which the unchanged code deviates are proved as counterexamples and '
-              'excluded by the narrowest hypotheses. The model is compared with the running engine on every run.')
+              'reference; the one situation in which the code deviates (several input rows updating one record, the last '
+              'one a no-op) is proved as a counterexample and excluded by the narrowest hypothesis. The model is compared with the running engine on every run.')
 LEVEL_NOTE = ('Trusted: Coq kernel, the hand-written model (validated differentially each run), column.convert as an '
               'uninterpreted function. Record add/update internals (undo, formula recalculation) are outside C28.')
 
@@ -396,8 +396,22 @@ def exhaustive_cases():
   return out
 
 
+# witnesses of findings (known or repaired) stay in the corpus
+REGRESSION = [
+  {'rows': [], 'bulk': True, 'require': {'id': [5, 5], 'A': ['x', 'y']}, 'col_values': {}, 'options': {}},
+  {'rows': [{'id': 1, 'A': 'a', 'B': 1, 'C': 'c0', 'D': 0}], 'bulk': True, 'require': {'id': [0]},
+   'col_values': {'C': ['p']}, 'options': {}},
+  {'rows': [{'id': 1, 'A': 'a', 'B': 1, 'C': 'c0', 'D': 0}], 'bulk': False, 'require': {'id': 0},
+   'col_values': {'C': 'p'}, 'options': {}},
+  {'rows': [{'id': 1, 'A': 'a', 'B': 1, 'C': 'c0', 'D': 0}, {'id': 2, 'A': 'a', 'B': 1, 'C': 'c0', 'D': 0}], 'bulk': True,
+   'require': {'A': ['x', 'y', 'z'], 'id': [-1, 3, None]}, 'col_values': {'C': ['p', 'q', 'r']}, 'options': {}},
+  {'rows': [{'id': 1, 'A': 'a', 'B': 1, 'C': 'c0', 'D': 0}], 'bulk': True, 'require': {},
+   'col_values': {'C': ['x', 'c0']}, 'options': {'allow_empty_require': True}},
+]
+
+
 def cases(ctx):
-  out = [gen_case(ctx.rng) for _ in range(ctx.n(400, 6000))]
+  out = copy.deepcopy(REGRESSION) + [gen_case(ctx.rng) for _ in range(ctx.n(400, 6000))]
   if ctx.tier == 'thorough':
     out.extend(exhaustive_cases())
     ctx.extra['exhaustive'] = True
@@ -463,7 +477,12 @@ def reference(case, pre, convtab, keytab):
       asks.append(None)
   if any(a is not None for a in asks) and any(c not in DATA for c in col_values):
     return ('err', 'EEnv', 'column does not accept data')
+  # automatic ids start above every existing id and every row id explicitly requested for a new record
   next_id = max([r['id'] for r in table] + [0]) + 1
+  for i, a in enumerate(asks):
+    x = require['id'][i] if (a == 'add' and 'id' in require) else None
+    if isinstance(x, int) and 0 <= x <= 1000000:
+      next_id = max(next_id, x + 1)
   resolved = []
   case['_hits'] = hits = {}
   for i, a in enumerate(asks):
@@ -488,7 +507,8 @@ def reference(case, pre, convtab, keytab):
       for c in col_values:
         new[c] = conv[(c, rep_key(col_values[c][i]))]
       table.append(new)
-      next_id = max(next_id, rid) + 1
+      if rid == next_id:
+        next_id += 1
       resolved.append(('add', rid))
     else:
       written = {c: conv[(c, rep_key(col_values[c][i]))] for c in col_values}
